@@ -29,7 +29,8 @@ T = 6       # trace length
 def frame_forms():
     """(label, python frame object, index list)"""
     return [('ellipsis', ..., list(range(T))), ('slice', slice(1, 4), [1, 2, 3]), ('slice0', slice(None, 3), [0, 1, 2]), ('step', slice(0, 6, 2), [0, 2, 4]),
-            ('list', [0, 2, 3], [0, 2, 3]), ('list-unordered', [4, 1], [4, 1]), ('array', np.array([5, 1, 2]), [5, 1, 2]), ('point', 2, [2]), ('full-slice', slice(0, 6), list(range(6)))]
+            ('list', [0, 2, 3], [0, 2, 3]), ('list-unordered', [4, 1], [4, 1]), ('array', np.array([5, 1, 2]), [5, 1, 2]), ('point', 2, [2]), ('full-slice', slice(0, 6), list(range(6))),
+            ('list-contiguous-descending', [3, 2, 1, 0], [3, 2, 1, 0]), ('list-contiguous-unordered', [3, 5, 4], [3, 5, 4])]
 
 
 # value palettes per dtype: python ints given as dyadics (m, e)
@@ -153,6 +154,17 @@ def combos(chk, rng):
         if not np.array_equal(traces, np.array(m['rows'], dtype=m['dtype'])):
             chk.violation(f'{m["op"]}:the traces handed to a preprocess are left as they were given', dict(ctx, property='C18'), f'{m["label"]}: the input batch was modified')
             traces = np.array(m['rows'], dtype=m['dtype'])
+        if ok and c['cfg']['mode'] in ('full', 'dist') and m['f1_obj'] is ... and m['f2_obj'] is None:
+            # the same object on traces of another width (whole-trace frame): a preprocess is a function of its configuration and of the batch it is given
+            wide = np.concatenate([traces, traces[:, :2]], axis=1)
+            try:
+                again_w, fresh_w = np.asarray(pre(wide)), np.asarray(make_pre(m)(wide))
+                if again_w.shape != fresh_w.shape or not np.array_equal(again_w, fresh_w, equal_nan=True):
+                    chk.violation(f'{m["op"]}:output equals the operation applied to the documented pairs in the documented order, without wrap-around (object reused on wider traces)',
+                                  dict(ctx, property='C18', got_shape=list(again_w.shape), fresh_shape=list(fresh_w.shape)), f'{m["label"]}: reused on traces of {wide.shape[1]} samples after {traces.shape[1]}: shape {again_w.shape}, a fresh object gives {fresh_w.shape}')
+            except Exception as ex:        # noqa - the fresh object accepts these traces, so must the reused one
+                chk.violation(f'{m["op"]}:output equals the operation applied to the documented pairs in the documented order, without wrap-around (object reused on wider traces)',
+                              dict(ctx, property='C18', error=repr(ex)[:200]), f'{m["label"]}: reused on wider traces: {ex!r}'[:240])
         if ok:
             # row r of the output depends only on row r of the input: the middle row alone / in another batch
             keep = np.array(got, copy=True)
